@@ -11,6 +11,7 @@ import Hy.Model.BbrProfiles
 import Hy.Proofs.BbrFilter
 import Hy.Proofs.BbrSampler
 import Hy.Gen.C12Sites
+import Hy.Gen.TransRing
 set_option linter.unusedSimpArgs false
 namespace Hy.Props.C12
 open Hy Hy.Ring Hy.Pnq
@@ -396,5 +397,117 @@ example : Sampler.bandwidthFromDelta 125000 100000000 = .ok 10000000 := by decid
     A0 candidates has no bound proved (one is pushed per aggregation epoch start, they are pruned
     only when an acked packet's sample chooses its A0 point) — its maximum is MEASURED by the harness
     (evidence note `max_a0_candidates`). -/
+
+set_option linter.unusedSimpArgs false
+
+/-! ### ringbuffer.go as TRANSLATED from the current Go source equals the model (`Hy.Ring`)
+
+`Hy.Gen.TransRing.*` is regenerated on every run by `verifgen translate` from the text of
+`Len`, `Empty`, `Offset`, `Front`, `Back` in core/internal/congestion/bbr/ringbuffer.go (go/ast → Lean:
+`int` = int64 wrap-around, Go's truncated `%`, the division-by-zero and the explicit `panic(...)`
+as `Res.panic`; `r.full` is a `Bool` parameter, `len(r.ring)` the parameter `r_ring_len`; a result
+`&r.ring[i]` is translated as the index `i` after Go's bounds check against `len(r.ring)`).
+The theorems hold for EVERY well-formed buffer below 2^62 slots and every int64 index (negative
+ones included): `Hy.Ring`'s `len`, `empty`, `offsetPos`, `front`, `back` — which the queue theorems
+above are about — ARE the repository's current index arithmetic. -/
+
+theorem ring_empty_translation_eq {α : Type} (r : RB α) :
+    Gen.TransRing.RingBuffer_Empty r.full r.head r.tail = r.empty := by
+  unfold Gen.TransRing.RingBuffer_Empty RB.empty
+  have e : ((r.head : Int) = (r.tail : Int)) ↔ r.head = r.tail := by omega
+  have e' : ((r.tail : Int) = (r.head : Int)) ↔ r.head = r.tail := by omega
+  by_cases h : r.head = r.tail <;> cases r.full <;> simp [h, e, e']
+
+theorem ring_len_translation_eq {α : Type} (r : RB α) (hwf : r.WF) (hc : r.cap < 4611686018427387904) :
+    Gen.TransRing.RingBuffer_Len r.full r.head r.cap r.tail = (r.len : Int) := by
+  have hh := hwf.hh; have ht := hwf.ht; have h0 := hwf.h0
+  unfold Gen.TransRing.RingBuffer_Len RB.len
+  by_cases hf : r.full = true
+  · simp only [hf, ↓reduceIte]
+  · have hf' : r.full = false := by simpa using hf
+    simp only [hf', Bool.false_eq_true, ↓reduceIte]
+    have hb : r.head ≤ r.cap ∧ r.tail ≤ r.cap := by
+      rcases Nat.eq_zero_or_pos r.cap with hz | hp
+      · have := h0 hz; omega
+      · have := hh hp; have := ht hp; omega
+    by_cases hth : r.tail ≥ r.head
+    · rw [if_pos (by omega), if_pos hth]
+      simp (disch := omega) only [GoInt.i64_of_range]; omega
+    · rw [if_neg (by omega), if_neg hth]
+      simp (disch := omega) only [GoInt.i64_of_range]; omega
+
+theorem ring_offset_translation_eq {α : Type} (r : RB α) (hwf : r.WF) (hc : r.cap < 4611686018427387904) (i : Int)
+    (hi : -9223372036854775808 ≤ i) :
+    Gen.TransRing.RingBuffer_Offset r.full r.head r.cap r.tail i
+      = (r.offsetPos i).bind (fun p => .ok (p : Int)) := by
+  have hh := hwf.hh; have h0 := hwf.h0
+  unfold Gen.TransRing.RingBuffer_Offset RB.offsetPos
+  rw [ring_empty_translation_eq, ring_len_translation_eq r hwf hc]
+  by_cases he : r.empty = true
+  · simp [he]
+  · by_cases hge : i ≥ (r.len : Int)
+    · simp [he, hge]
+    · have hcap : 0 < r.cap := by
+        rcases Nat.eq_zero_or_pos r.cap with hz | hp
+        · exfalso; have := h0 hz; simp [RB.empty, this] at he
+        · exact hp
+      have hlen : r.len ≤ r.cap := by
+        have := hh hcap; have := hwf.ht hcap
+        unfold RB.len; split
+        · omega
+        · split <;> omega
+      have := hh hcap
+      have hle : ¬ ((r.len : Int) ≤ i) := by omega
+      simp only [he, hge, hle, Bool.false_eq_true, false_or, or_false, ↓reduceIte, Bool.or_false, decide_false, ge_iff_le]
+      simp (disch := omega) only [GoInt.i64_of_range]
+      go_ac_norm
+      generalize Int.tmod _ _ = off
+      have hc0 : ¬ ((r.cap : Int) = 0) := by omega
+      simp only [hc0, ne_eq, not_false_eq_true, not_true_eq_false, ↓reduceIte]
+      by_cases hoff : 0 ≤ off ∧ off < (r.cap : Int)
+      · rw [if_neg (by omega), if_pos (by omega)]
+        simp only [Res.bind_ok, Res.ok.injEq]; omega
+      · rw [if_pos hoff, if_neg (by omega)]; rfl
+
+theorem ring_idx_ge {α : Type} {l : List α} {j : Nat} (h : l.length ≤ j) : Res.idx l j = Res.panic := by
+  unfold Res.idx; rw [List.getElem?_eq_none h]
+
+theorem ring_front_translation_eq {α : Type} (r : RB α) :
+    r.front = (Gen.TransRing.RingBuffer_Front r.full r.head r.cap r.tail).bind (fun p => r.slot p.toNat) := by
+  unfold Gen.TransRing.RingBuffer_Front RB.front
+  rw [ring_empty_translation_eq]
+  by_cases he : r.empty = true
+  · simp [he]
+  · simp only [he, Bool.false_eq_true, ↓reduceIte]
+    by_cases hb : r.head < r.cap
+    · rw [if_neg (by omega)]; simp
+    · rw [if_pos (by omega)]
+      simp only [Res.bind_panic, RB.slot]
+      exact ring_idx_ge (by unfold RB.cap at hb; omega)
+
+theorem ring_back_translation_eq {α : Type} (r : RB α) (hwf : r.WF) (hc : r.cap < 4611686018427387904) :
+    r.back = (Gen.TransRing.RingBuffer_Back r.full r.head r.cap r.tail).bind (fun p => r.slot p.toNat) := by
+  unfold Gen.TransRing.RingBuffer_Back RB.back RB.offset
+  rw [ring_empty_translation_eq, ring_len_translation_eq r hwf hc]
+  by_cases he : r.empty = true
+  · simp [he]
+  · simp only [he, Bool.false_eq_true, ↓reduceIte]
+    have hlen : r.len ≤ r.cap := by
+      have hh := hwf.hh; have ht := hwf.ht; have h0 := hwf.h0
+      unfold RB.len
+      rcases Nat.eq_zero_or_pos r.cap with hz | hp
+      · have := h0 hz; split
+        · omega
+        · split <;> omega
+      · have := hh hp; have := ht hp; split
+        · omega
+        · split <;> omega
+    simp (disch := omega) only [GoInt.i64_of_range]
+    rw [ring_offset_translation_eq r hwf hc _ (by omega)]
+    cases r.offsetPos ((r.len : Int) - 1) <;> simp
+
+example : Gen.TransRing.RingBuffer_Offset false 3 4 1 (-1) = .ok 2 := by decide
+example : Gen.TransRing.RingBuffer_Offset false 3 4 1 2 = .panic := by decide
+example : Gen.TransRing.RingBuffer_Back true 2 4 2 = .ok 1 := by decide
 
 end Hy.Props.C12
